@@ -868,6 +868,8 @@ fn check(id: &str, tier: &str) -> i32
             let mut cases: Vec<SchedCase> = schedeng::success_cases(tier);
             cases.extend(schedeng::failure_cases(tier));
             run_sched_plans(&mut rep, id, cases, phases_light(tier), Oracles::only(id));
+            rep.assume("real binary: the status lines printed by StandardPrinter are parsed from its standard output and compared with the model's, step by step (scenarios S3, S6, S10)");
+            crate::realbin::run_realfs_for(&mut rep, tier, "C20", vec![scen::s3_multi(), scen::s6_exec(), scen::s10_bundle()]);
         },
         "C03" =>
         {
